@@ -1,8 +1,9 @@
 package main
 
 import (
-	"strings"
 	"fmt"
+	"reflect"
+	"strings"
 
 	"github.com/mfcochauxlaberge/jsonapi"
 )
@@ -493,7 +494,43 @@ func (m c17) equalityLaws(c *Ctx, specs []*TypeSpec, state *ResSpec) {
 	}
 }
 
+// namedID: a struct whose ID field has a user-defined string type (type UserID string): Set/Get on the id and the
+// strict equality behave as for a plain string ID.
+func (m c17) namedID(c *Ctx) {
+	c.Name = "named-string-id"
+	st := reflect.StructOf([]reflect.StructField{
+		{Name: "ID", Type: reflect.TypeOf(namedString("")), Tag: `json:"id" api:"nid"`},
+		{Name: "A", Type: reflect.TypeOf(""), Tag: `json:"a" api:"attr"`},
+	})
+	if pi := Guard(func() {
+		w1, w2 := jsonapi.Wrap(reflect.New(st).Interface()), jsonapi.Wrap(reflect.New(st).Interface())
+		w1.Set("id", "u1")
+		w2.Set("id", "u2")
+		w1.Set("a", "x")
+		w2.Set("a", "x")
+		c.Count("named_id_resources")
+		for i, w := range []*jsonapi.Wrapper{w1, w2} {
+			want := []string{"u1", "u2"}[i]
+			if g, _ := w.Get("id").(string); g != want {
+				c.Violate("readback/wrapped/id/named-string", "Set(id,%q) then Get(id) = %v", want, w.Get("id"))
+			}
+			if g := w.GetID(); g != want {
+				c.Violate("readback/wrapped/getid/named-string", "Set(id,%q) then GetID() = %q", want, g)
+			}
+		}
+		if jsonapi.EqualStrict(w1, w2) || jsonapi.EqualStrict(w2, w1) {
+			c.Violate("equalstrict-true-on-different/id/named-string", "EqualStrict holds between wrapped structs with IDs u1 and u2 (ID field of a named string type)")
+		}
+		if !jsonapi.EqualStrict(w1, w1) {
+			c.Violate("equal-not-reflexive/named-string", "EqualStrict(a,a) is false")
+		}
+	}); pi != nil {
+		c.Violate("panic@"+pi.Frame+"/"+panicClass(pi.Val)+"/named-string-id", "%s", pi)
+	}
+}
+
 func (m c17) Directed(c *Ctx) {
+	m.namedID(c)
 	c.Name = "witness-equal-ignores-field-names"
 	t := TypeSpec{Name: "t", Attrs: []AttrSpec{{Name: "a", Kind: KInt}}}
 	soft, wrapped := t, t
